@@ -51,7 +51,8 @@ def worker(k, names):
         sh("git checkout -- . && git clean -fdq -e Cargo.lock", cwd=wt)
         rc, out = sh("git apply %s/patch.diff" % d, cwd=wt)
         if rc != 0:
-            res.append((name, "patch does not apply"))
+            res.append((name, "STALE: patch does not apply to the current tree"))
+            print(name, "STALE: patch does not apply to the current tree", flush=True)
             continue
         others = [p for p, v in (meta.get("detected_by") or {}).items() if v and p != prop]
         got = {}
